@@ -133,7 +133,19 @@ func inRepo(fn *ssa.Function) bool {
 }
 
 func contractKey(fn *ssa.Function) string {
-	if fn.Parent() != nil || fn.Synthetic != "" && fn.Object() == nil {
+	if p := fn.Parent(); p != nil {
+		pk := contractKey(p)
+		if pk == "" {
+			return ""
+		}
+		for i, af := range p.AnonFuncs {
+			if af == fn {
+				return fmt.Sprintf("%s$%d", pk, i+1)
+			}
+		}
+		return ""
+	}
+	if fn.Synthetic != "" && fn.Object() == nil {
 		return ""
 	}
 	obj := fn.Object()
@@ -387,7 +399,30 @@ func (x *Exec) ghostInit(name, sort string) string {
 	c := sanitize(name) + "@0"
 	c = "|" + c + "|"
 	x.enc.DeclConst(c, sort)
+	x.ghostFacts(name, c)
 	return c
+}
+
+// freshGhost: an unknown new value of a ghost cell, with the cell's global assumptions.
+func (x *Exec) freshGhost(name, tag, sort string) string {
+	c := x.enc.FreshConst(name+tag, sort)
+	x.ghostFacts(name, c)
+	return c
+}
+
+// ghostFacts: assumptions that hold for every value of a ghost cell (listed in the evidence).
+func (x *Exec) ghostFacts(name, c string) {
+	if gi, ok := x.ghostTy[name]; ok && !gi.Arr && !gi.Opt && gi.Sort == "Int" {
+		// collections.Sequence: a uint64 counter (A-CTR: far below 2^64)
+		x.enc.Axiom(and(app(">=", c, "0"), app("<", c, two63)))
+		x.enc.usedAssum["A-CTR: sequence counters stay below 2^63"] = true
+	}
+	switch name {
+	case "bank.bal":
+		// A-BANK: account balances are never negative
+		x.enc.Axiom(fmt.Sprintf("(forall ((k (Pair Bytes Bytes))) (! (>= (select %s k) 0) :pattern ((select %s k))))", c, c))
+		x.enc.usedAssum["A-BANK: account balances are never negative"] = true
+	}
 }
 
 func (x *Exec) ghostGet(st *State, h int, name, sort string, gi ghostInfo) string {
@@ -412,7 +447,7 @@ func (x *Exec) ghostGet(st *State, h int, name, sort string, gi ghostInfo) strin
 	if s.Epoch == 0 {
 		t = x.ghostInit(name, sort)
 	} else {
-		t = x.enc.FreshConst(name+"@h", sort)
+		t = x.freshGhost(name, "@h", sort)
 	}
 	s.G[name] = t
 	return t
@@ -439,7 +474,7 @@ func (x *Exec) havocGhost(st *State, names map[string]bool, all bool) {
 			if !ok {
 				continue
 			}
-			s.G[n] = x.enc.FreshConst(n+"@h", gi.Sort)
+			s.G[n] = x.freshGhost(n, "@h", gi.Sort)
 		}
 	}
 }
@@ -598,6 +633,12 @@ func (x *Exec) applyContract(c *CallCtx, ct *Contract) []Outcome {
 		results["r"] = vals[0]
 	}
 	env.results = results
+	if ct.Func == "FinalizeTokenDeposit" {
+		st.depositCalls++
+		if ev, ok := results["err"]; ok {
+			st.depositErrs = append(st.depositErrs, term(ev))
+		}
+	}
 	for _, cl := range ct.Of("ensures") {
 		sv, err := EvalSpec(cl.node, env, x.sigs, bound)
 		if err != nil {
@@ -669,7 +710,7 @@ func (x *Exec) havocAssign(st, pre *State, env *cenv, bound map[string]SV, n *No
 	}
 	cur := x.ghostGet(st, 0, name, gi.Sort, gi)
 	if len(keys) == 0 || !gi.Arr {
-		x.ghostSet(st, 0, name, x.enc.FreshConst(name+"@c", gi.Sort))
+		x.ghostSet(st, 0, name, x.freshGhost(name, "@c", gi.Sort))
 		return
 	}
 	k := keys[0]
@@ -680,14 +721,14 @@ func (x *Exec) havocAssign(st, pre *State, env *cenv, bound map[string]SV, n *No
 			x.fail("assigns key: %v", err)
 			return
 		}
-		nw := x.enc.FreshConst(name+"@c", gi.Sort)
+		nw := x.freshGhost(name, "@c", gi.Sort)
 		ks := x.enc.Sort(gi.KeyTy)
 		st.Assume(fmt.Sprintf("(forall ((k %s)) (! (=> (not (= (fst k) %s)) (= (select %s k) (select %s k))) :pattern ((select %s k))))", ks, pv.T, nw, cur, nw))
 		x.ghostSet(st, 0, name, nw)
 		return
 	}
 	if k.Kind == "ident" && k.Name == "$any" {
-		x.ghostSet(st, 0, name, x.enc.FreshConst(name+"@c", gi.Sort))
+		x.ghostSet(st, 0, name, x.freshGhost(name, "@c", gi.Sort))
 		return
 	}
 	kv, err := EvalSpec(k, env.pre(), x.sigs, bound)
@@ -700,6 +741,9 @@ func (x *Exec) havocAssign(st, pre *State, env *cenv, bound map[string]SV, n *No
 	parts := splitTop(gi.Sort[1 : len(gi.Sort)-1])
 	vs = parts[2]
 	fv := x.enc.FreshConst(name+"@e", vs)
+	if name == "bank.bal" {
+		st.Assume(app(">=", fv, "0"))
+	}
 	x.ghostSet(st, 0, name, app("store", x.ghostGet(st, 0, name, gi.Sort, gi), kv.T, fv))
 }
 
@@ -767,6 +811,34 @@ func (c *cenv) Lookup(name string, old bool) (SV, bool) {
 			return SV{T: "true", Sort: "Bool"}, true
 		}
 		return SV{T: "false", Sort: "Bool"}, true
+	case "$depositCalls":
+		return SV{T: fmt.Sprint(st.depositCalls), Sort: "Int"}, true
+	case "$errFromDeposit":
+		if c.results != nil {
+			if ev, ok := c.results["err"]; ok {
+				for _, d := range st.depositErrs {
+					if d == term(ev) {
+						return SV{T: "true", Sort: "Bool"}, true
+					}
+				}
+			}
+		}
+		return SV{T: "false", Sort: "Bool"}, true
+	case "$isCheckTx":
+		x.enc.DeclConst("ctx.isCheckTx", "Bool")
+		return SV{T: "ctx.isCheckTx", Sort: "Bool"}, true
+	case "$isReCheckTx":
+		x.enc.DeclConst("ctx.isReCheckTx", "Bool")
+		return SV{T: "ctx.isReCheckTx", Sort: "Bool"}, true
+	case "$nodeMinGasPrices":
+		if sp := x.L.Prog.ImportedPackage("github.com/cosmos/cosmos-sdk/types"); sp != nil && sp.Type("DecCoins") != nil {
+			ty := sp.Type("DecCoins").Type()
+			n := x.enc.DeclConst("ctx.minGasPrices", x.enc.Sort(ty))
+			return SV{T: n, Ty: ty}, true
+		}
+		return SV{}, false
+	case "$nextCalled":
+		return SV{T: fmt.Sprint(st.nextCalled), Sort: "Int"}, true
 	case "$hookCalls":
 		return SV{T: fmt.Sprint(len(st.hookCalls)), Sort: "Int"}, true
 	case "$hookCfg":
@@ -945,4 +1017,20 @@ func (x *Exec) evalEmits(cl *Clause, env SpecEnv, bound map[string]SV) (string, 
 		evs = append(evs, ev)
 	}
 	return guard, evs, nil
+}
+
+// TypedUF: uninterpreted spec functions whose sorts come from Go types of dependencies.
+func (c *cenv) TypedUF(name string) ([]types.Type, types.Type, bool) {
+	sp := c.x.L.Prog.ImportedPackage("github.com/cosmos/cosmos-sdk/types")
+	if sp == nil || sp.Type("DecCoins") == nil || sp.Type("Coins") == nil {
+		return nil, nil, false
+	}
+	dec, coins := sp.Type("DecCoins").Type(), sp.Type("Coins").Type()
+	switch name {
+	case "combinedMin":
+		return []types.Type{dec, dec}, dec, true
+	case "requiredFees":
+		return []types.Type{types.Typ[types.Uint64], dec}, coins, true
+	}
+	return nil, nil, false
 }
